@@ -177,7 +177,10 @@ def check_state(conf, hist, G0, M):
             if out != 'NetworkXNotImplemented':
                 bad('blocked-callable-not-blocked', {'call': 'dn.%s(G, *%r)' % (name, args), 'outcome': out}, callable='dn.' + name, outcome=out)
             if observe.canon_impl(G) != key0:
-                bad('interaction-state-changed', {'call': 'dn.%s' % name}, callable='dn.' + name, components=['?'])
+                # structural difference is only a hint (a memo may have been primed): the verdict is observational
+                d_ = observe.snapshot_diff(snap0, observe.snapshot(G, conf, times))
+                if d_:
+                    bad('interaction-state-changed', {'call': 'dn.%s' % name, 'changed': d_}, callable='dn.' + name, components=d_)
                 G = fresh()
     # ---- frozen twin: every mutator raises and changes nothing
     F = fresh()
